@@ -21,6 +21,9 @@ CONSTANTS
   GenCheck = FALSE
   ModernUnsub = FALSE
   ForeignUnsub = FALSE
+  Listeners = {}
+  MaxListens = 0
+  FailUndo = TRUE
   Stepwise = TRUE
   Gates = TRUE
   GateNames = {"put"}
